@@ -205,7 +205,7 @@ Qed.
 Lemma pco_total_repeat b e n : pco_total b (repeat e n) = Z.of_nat n * pco_own b e.
 Proof. induction n as [|n IH]; [reflexivity|]. cbn [repeat]. rewrite pco_total_cons, IH. lia. Qed.
 
-(* a budget sized for n hits of one client admits and answers these n hits whatever the background does *)
+(* a budget sized for n hits of one client lets in and answers these n hits whatever the background does *)
 Theorem pco_budget_for_hits burst l peer client n evs :
   filter pco_is_req evs = repeat (PcoReq l peer client PcoHit) n ->
   (forall b, Z.of_nat n * pco_own b (PcoReq l peer client PcoHit) <= burst) ->
